@@ -1,4 +1,4 @@
-//! Two more visitors for the class reader's other code paths: `Skim` declares (almost) no
+//! More visitors for the class reader's other code paths: `Skim` declares (almost) no
 //! interests and declines every field and method (every attribute is skipped with a seek, members
 //! through skip_attributes); `Decline` declines the class itself; `()` (all interests, no tree)
 //! is the crate's own.
@@ -39,4 +39,112 @@ impl MultiClassVisitor for Decline {
 		Ok(ControlFlow::Break(Decline(self.0 + 1)))
 	}
 	fn finish_class(this: Decline, _c: SkimClass) -> Result<Self> { Ok(this) }
+}
+
+// ---------------------------------------------------------------------------------------------
+// `NoMembers`: a class visitor WITHOUT interest in fields and methods (the reader then skips every
+// member without parsing it) that is interested in records but declines every record component.
+use anyhow::bail;
+use duke::tree::class::{ClassName, ClassSignature, EnclosingMethod, InnerClass};
+use duke::tree::method::{MethodParameter, MethodSignature};
+use duke::tree::module::{Module, PackageName};
+use duke::tree::record::RecordName;
+use duke::visitor::class::{ClassInterests, ClassVisitor};
+use duke::visitor::method::{MethodInterests, MethodVisitor};
+use java_string::JavaString;
+
+pub struct NoMembers(pub usize);
+pub struct NoMembersClass;
+impl MultiClassVisitor for NoMembers {
+	type ClassVisitor = NoMembersClass;
+	type ClassResidual = NoMembers;
+	fn visit_class(self, _v: Version, _a: ClassAccess, _n: ObjClassName, _s: Option<ObjClassName>, _i: Vec<ObjClassName>) -> Result<ControlFlow<Self, (NoMembers, NoMembersClass)>> {
+		Ok(ControlFlow::Continue((NoMembers(self.0 + 1), NoMembersClass)))
+	}
+	fn finish_class(this: NoMembers, _c: NoMembersClass) -> Result<Self> { Ok(this) }
+}
+impl ClassVisitor for NoMembersClass {
+	type AnnotationsVisitor = Infallible;
+	type AnnotationsResidual = Self;
+	type TypeAnnotationsVisitor = Infallible;
+	type TypeAnnotationsResidual = Self;
+	type RecordComponentVisitor = Infallible;
+	type RecordComponentResidual = Self;
+	type FieldVisitor = Infallible;
+	type FieldResidual = Self;
+	type MethodVisitor = Infallible;
+	type MethodResidual = Self;
+	type UnknownAttribute = ();
+	fn interests(&self) -> ClassInterests { ClassInterests { record: true, ..ClassInterests::none() } }
+	fn visit_deprecated_and_synthetic_attribute(&mut self, _d: bool, _s: bool) -> Result<()> { Ok(()) }
+	fn visit_inner_classes(&mut self, _x: Vec<InnerClass>) -> Result<()> { Ok(()) }
+	fn visit_enclosing_method(&mut self, _x: EnclosingMethod) -> Result<()> { Ok(()) }
+	fn visit_signature(&mut self, _x: ClassSignature) -> Result<()> { Ok(()) }
+	fn visit_source_file(&mut self, _x: JavaString) -> Result<()> { Ok(()) }
+	fn visit_source_debug_extension(&mut self, _x: JavaString) -> Result<()> { Ok(()) }
+	fn visit_annotations(self, _visible: bool) -> Result<(Self, Infallible)> { bail!("no interest in annotations was declared") }
+	fn finish_annotations(this: Self, _a: Infallible) -> Result<Self> { Ok(this) }
+	fn visit_type_annotations(self, _visible: bool) -> Result<(Self, Infallible)> { bail!("no interest in type annotations was declared") }
+	fn finish_type_annotations(this: Self, _a: Infallible) -> Result<Self> { Ok(this) }
+	fn visit_module(&mut self, _x: Module) -> Result<()> { Ok(()) }
+	fn visit_module_packages(&mut self, _x: Vec<PackageName>) -> Result<()> { Ok(()) }
+	fn visit_module_main_class(&mut self, _x: ClassName) -> Result<()> { Ok(()) }
+	fn visit_nest_host_class(&mut self, _x: ClassName) -> Result<()> { Ok(()) }
+	fn visit_nest_members(&mut self, _x: Vec<ClassName>) -> Result<()> { Ok(()) }
+	fn visit_permitted_subclasses(&mut self, _x: Vec<ClassName>) -> Result<()> { Ok(()) }
+	fn visit_record_component(self, _n: RecordName, _d: FieldDescriptor) -> Result<ControlFlow<Self, (Self, Infallible)>> { Ok(ControlFlow::Break(self)) }
+	fn finish_record_component(this: Self, _r: Infallible) -> Result<Self> { Ok(this) }
+	fn visit_unknown_attribute(&mut self, _x: ()) -> Result<()> { Ok(()) }
+	fn visit_field(self, _a: FieldAccess, _n: FieldName, _d: FieldDescriptor) -> Result<ControlFlow<Self, (Self, Infallible)>> { Ok(ControlFlow::Break(self)) }
+	fn finish_field(this: Self, _f: Infallible) -> Result<Self> { Ok(this) }
+	fn visit_method(self, _a: MethodAccess, _n: MethodName, _d: MethodDescriptor) -> Result<ControlFlow<Self, (Self, Infallible)>> { Ok(ControlFlow::Break(self)) }
+	fn finish_method(this: Self, _m: Infallible) -> Result<Self> { Ok(this) }
+}
+
+// `DeclineCode`: visits every method, declares interest in its code, and declines the code when it is
+// offered (`visit_code` returns None): the reader has to skip the Code attribute by its length.
+pub struct DeclineCode(pub usize);
+pub struct DeclineCodeClass;
+pub struct DeclineCodeMethod;
+impl MultiClassVisitor for DeclineCode {
+	type ClassVisitor = DeclineCodeClass;
+	type ClassResidual = DeclineCode;
+	fn visit_class(self, _v: Version, _a: ClassAccess, _n: ObjClassName, _s: Option<ObjClassName>, _i: Vec<ObjClassName>) -> Result<ControlFlow<Self, (DeclineCode, DeclineCodeClass)>> {
+		Ok(ControlFlow::Continue((DeclineCode(self.0 + 1), DeclineCodeClass)))
+	}
+	fn finish_class(this: DeclineCode, _c: DeclineCodeClass) -> Result<Self> { Ok(this) }
+}
+impl SimpleClassVisitor for DeclineCodeClass {
+	type FieldVisitor = Infallible;
+	type MethodVisitor = DeclineCodeMethod;
+	fn visit_field(&mut self, _a: FieldAccess, _n: FieldName, _d: FieldDescriptor) -> Result<Option<Infallible>> { Ok(None) }
+	fn finish_field(&mut self, _f: Infallible) -> Result<()> { Ok(()) }
+	fn visit_method(&mut self, _a: MethodAccess, _n: MethodName, _d: MethodDescriptor) -> Result<Option<DeclineCodeMethod>> { Ok(Some(DeclineCodeMethod)) }
+	fn finish_method(&mut self, _m: DeclineCodeMethod) -> Result<()> { Ok(()) }
+}
+impl MethodVisitor for DeclineCodeMethod {
+	type AnnotationsVisitor = Infallible;
+	type AnnotationsResidual = Self;
+	type TypeAnnotationsVisitor = Infallible;
+	type TypeAnnotationsResidual = Self;
+	type AnnotationDefaultVisitor = Infallible;
+	type AnnotationDefaultResidual = Self;
+	type CodeVisitor = Infallible;
+	type UnknownAttribute = ();
+	fn interests(&self) -> MethodInterests { MethodInterests { code: true, ..MethodInterests::none() } }
+	fn visit_deprecated_and_synthetic_attribute(&mut self, _d: bool, _s: bool) -> Result<()> { Ok(()) }
+	fn visit_exceptions(&mut self, _x: Vec<ClassName>) -> Result<()> { Ok(()) }
+	fn visit_signature(&mut self, _x: MethodSignature) -> Result<()> { Ok(()) }
+	fn visit_annotations(self, _visible: bool) -> Result<(Self, Infallible)> { bail!("no interest in annotations was declared") }
+	fn finish_annotations(this: Self, _a: Infallible) -> Result<Self> { Ok(this) }
+	fn visit_type_annotations(self, _visible: bool) -> Result<(Self, Infallible)> { bail!("no interest in type annotations was declared") }
+	fn finish_type_annotations(this: Self, _a: Infallible) -> Result<Self> { Ok(this) }
+	fn visit_annotation_default(self) -> Result<(Self, Infallible)> { bail!("no interest in the annotation default was declared") }
+	fn finish_annotation_default(this: Self, _e: Infallible) -> Result<Self> { Ok(this) }
+	fn visit_parameters(&mut self, _x: Vec<MethodParameter>) -> Result<()> { Ok(()) }
+	fn visit_annotable_parameter_count(&mut self) {}
+	fn visit_parameter_annotation(&mut self) {}
+	fn visit_unknown_attribute(&mut self, _x: ()) -> Result<()> { Ok(()) }
+	fn visit_code(&mut self) -> Result<Option<Infallible>> { Ok(None) }
+	fn finish_code(&mut self, _c: Infallible) -> Result<()> { Ok(()) }
 }
